@@ -5,6 +5,7 @@ import Tahoe.Base.Base62
 import Tahoe.Base.Struct
 import Tahoe.Codec.Ueb
 import Tahoe.Codec.Records
+import Tahoe.Codec.Utf8
 /-! Driver for C38 (encodings).  One operation per line; bytes as lowercase hex (`-` = empty).
     See `handle` for the operations.  `mode` is `s` (strict / corrected decoders) or `p` (the
     decoders that use Python's `int()` etc. — the code as it is). -/
@@ -97,6 +98,10 @@ def handle : List String → String
     match cfg, bytesOfHex x with
     | some cfg, some b => (match Ueb.unpack cfg b with | .ok d => showDict d | .error e => uebErr e)
     | _, _ => "bad-op"
+  | ["utf8ok", x] => match bytesOfHex x with
+    | some b => if Ueb.utf8Ok b.length b then "T" else "F" | none => "bad-op"
+  | ["utf8enc", cps] => match parseNatList cps with
+    | some cs => hexOfBytes (Utf8.encStr cs) | none => "bad-op"
   | "spack" :: fmt :: vals => match Struct.parseFormat fmt.toList, vals.mapM parseVal with
     | some fs, some vs => optHex (Struct.pack fs vs) | _, _ => "bad-op"
   | ["sunpack", fmt, x] => match Struct.parseFormat fmt.toList, bytesOfHex x with
